@@ -329,8 +329,18 @@ struct Writer {
   long sends_at_fail = -1;
   size_t expect_at_fail = 0;
   bool freed = false;
+  int in_fail_kind = 0;  // what the application does from inside the failure callback: 0 nothing, 1 write, 2 reserve+consume
+  size_t in_fail_len = 0;
+  bool null_failcb = false;
 };
 static Writer *WR;
+// has the writer failed (as far as the application can know)?  Without a failure callback: as soon as the transport failed hard,
+// because the library learns of it in the same event-loop turn.
+static bool wr_failed() {
+  Writer &w = *WR;
+  Sock *s = K().get(w.fd);
+  return w.fail_callbacks > 0 || (w.null_failcb && s && s->out_failed);
+}
 static int wr_fail_cb(void *) {
   Writer &w = *WR;
   w.fail_callbacks++;
@@ -338,6 +348,23 @@ static int wr_fail_cb(void *) {
   if (w.fail_callbacks == 1) {
     w.sends_at_fail = s->send_calls;
     if (!s->out_failed) X->fail("spurious-write-failure", "failure callback although the transport never failed");
+    // "later writes are discarded silently" -- also those the application makes right here
+    if (w.in_fail_kind == 1) {
+      std::string d = prbytes(77, w.in_fail_len);
+      int rc = shim_nw_write(w.W, (const uint8_t *)d.data(), d.size());
+      if (rc != 0) X->fail("write-after-failure", "write from inside the failure callback returned " + std::to_string(rc));
+      X->cls.insert("write-from-failure-callback");
+    } else if (w.in_fail_kind == 2) {
+      uint8_t *p = shim_nw_reserve(w.W, w.in_fail_len + 1);
+      if (!p)
+        X->fail("reserve-refused", "netbuf_write_reserve from inside the failure callback returned NULL");
+      else {
+        memset(p, 'r', w.in_fail_len);
+        int rc = shim_nw_consume(w.W, w.in_fail_len);
+        if (rc != 0) X->fail("consume-refused", "netbuf_write_consume from inside the failure callback returned " + std::to_string(rc));
+      }
+      X->cls.insert("write-from-failure-callback");
+    }
   } else
     X->fail("fail-callback-twice", "failure callback invoked more than once");
   return 0;
@@ -369,20 +396,27 @@ static Outcome run_writer(const Case &c) {
   size_t nout = 0;
   for (auto &op : c)
     if (op.k == "out" && nout++ < 600) K().push_out(w.fd, mk_out(op));
-  w.W = shim_nw_init(w.fd, wr_fail_cb, &w);
+  for (auto &op : c)
+    if (op.k == "opt") {
+      w.in_fail_kind = (int)(((op.a.size() > 0 ? op.a[0] : 0) % 3 + 3) % 3);
+      w.in_fail_len = (size_t)std::min<int64_t>(std::max<int64_t>(op.a.size() > 1 ? op.a[1] : 0, 0), 10000);
+      w.null_failcb = op.a.size() > 2 && (op.a[2] & 1);
+    }
+  w.W = shim_nw_init(w.fd, w.null_failcb ? nullptr : wr_fail_cb, &w);
+  if (w.null_failcb) x.cls.insert("no-failure-callback");
   if (!w.W) x.fail("init-failed", "netbuf_write_init returned NULL");
   long nops = 0;
   bool last_small = false;
   for (auto &op : c) {
     if (x.failed || w.freed) break;
     auto A = [&](size_t i) -> int64_t { return i < op.a.size() ? op.a[i] : 0; };
-    bool inflight = s->sent.size() < w.expect.size() && !w.fail_callbacks;
+    bool inflight = s->sent.size() < w.expect.size() && !wr_failed();
     if (op.k == "w" && nops++ < 200) {
       size_t len = (size_t)std::min<int64_t>(std::max<int64_t>(A(0), 0), 100000);
       std::string d = prbytes((uint64_t)A(1), len);
       uint8_t *b = (uint8_t *)malloc(len ? len : 1);
       memcpy(b, d.data(), len);
-      bool failed_before = w.fail_callbacks > 0;
+      bool failed_before = wr_failed();
       int rc = shim_nw_write(w.W, b, len);
       free(b);
       if (rc != 0) x.fail("write-refused", "netbuf_write_write returned " + std::to_string(rc) + " without an allocation failure");
@@ -390,6 +424,7 @@ static Outcome run_writer(const Case &c) {
       if (failed_before) x.cls.insert("write-after-failure");
       if (len == 0) x.cls.insert("zero-length-write");
       if (len > 4096) x.cls.insert("write-above-4096");
+      if (len > 65536) x.cls.insert("write-above-65536");
       if (inflight) x.cls.insert("queued-behind-inflight");
       if (last_small && len > 0 && len < 1000) x.cls.insert("coalesced-small-writes");
       last_small = len < 1000;
@@ -397,7 +432,7 @@ static Outcome run_writer(const Case &c) {
       size_t len = (size_t)std::min<int64_t>(std::max<int64_t>(A(0), 0), 100000);
       size_t used = (size_t)std::min<int64_t>(std::max<int64_t>(A(1), 0), (int64_t)len);
       std::string d = prbytes((uint64_t)A(2), used);
-      bool failed_before = w.fail_callbacks > 0;
+      bool failed_before = wr_failed();
       uint8_t *p = shim_nw_reserve(w.W, len);
       if (!p) {
         x.fail("reserve-refused", "netbuf_write_reserve returned NULL without an allocation failure");
@@ -415,7 +450,7 @@ static Outcome run_writer(const Case &c) {
     } else if (op.k == "run") {
       int n = (int)std::min<int64_t>(std::max<int64_t>(A(0), 1), 5);
       for (int i = 0; i < n && !x.failed; i++) {
-        if (!(s->sent.size() < w.expect.size() && !w.fail_callbacks)) break;
+        if (!(s->sent.size() < w.expect.size() && !wr_failed())) break;
         K().stuck = false;
         int rc = shim_events_run();
         if (rc != 0) x.fail("events-run-error", "events_run returned " + std::to_string(rc));
@@ -439,7 +474,7 @@ static Outcome run_writer(const Case &c) {
   // quiescence
   if (!x.failed && !w.freed) {
     for (int i = 0; i < 40000 && !x.failed; i++) {
-      if (w.fail_callbacks || s->sent.size() >= w.expect.size()) break;
+      if (wr_failed() || s->sent.size() >= w.expect.size()) break;
       K().stuck = false;
       int rc = shim_events_run();
       if (rc != 0) x.fail("events-run-error", "events_run returned " + std::to_string(rc));
@@ -450,18 +485,18 @@ static Outcome run_writer(const Case &c) {
     }
     if (!x.failed) {
       wr_check_prefix("at quiescence");
-      if (!w.fail_callbacks && s->sent != w.expect) x.fail("write-incomplete", "transport never failed but the peer did not receive the whole concatenation of writes");
-      if (s->out_failed && !w.fail_callbacks) x.fail("failure-not-reported", "the transport failed but the failure callback never fired");
+      if (!wr_failed() && s->sent != w.expect) x.fail("write-incomplete", "transport never failed but the peer did not receive the whole concatenation of writes");
+      if (s->out_failed && !w.fail_callbacks && !w.null_failcb) x.fail("failure-not-reported", "the transport failed but the failure callback never fired");
     }
     // later writes after a failure are discarded silently
-    if (!x.failed && w.fail_callbacks) {
+    if (!x.failed && wr_failed()) {
       uint8_t z[10] = {1, 2, 3, 4, 5, 6, 7, 8, 9, 10};
       int rc = shim_nw_write(w.W, z, sizeof z);
       if (rc != 0) x.fail("write-after-failure", "write after a transport failure returned " + std::to_string(rc) + " instead of being discarded silently");
       K().stuck = false;
       shim_events_run();
       wr_check_prefix("after post-failure write");
-      if (w.fail_callbacks != 1) x.fail("fail-callback-twice", "failure callback count " + std::to_string(w.fail_callbacks));
+      if (w.fail_callbacks != (w.null_failcb ? 0 : 1)) x.fail("fail-callback-twice", "failure callback count " + std::to_string(w.fail_callbacks));
       x.cls.insert("transport-failure");
     }
   }
@@ -484,7 +519,8 @@ static rc::Gen<Case> gen_writer(int tier) {
                                                  {5, range<int64_t>(1, 100)},
                                                  {2, rc::gen::elementOf(std::vector<int64_t>{4094, 4095, 4096, 4097, 4098, 8192})},
                                                  {2, range<int64_t>(1, 6000)},
-                                                 {1, range<int64_t>(1, tier ? 100000 : 20000)}});
+                                                 {1, range<int64_t>(1, tier ? 100000 : 20000)},
+                                                 {1, rc::gen::elementOf(std::vector<int64_t>{32767, 32768, 32769, 65535, 65536, 65537, 70001, 99999})}});
     int nops = *range<int>(1, 25);
     int64_t total = 0;
     for (int i = 0; i < nops; i++) {
@@ -502,6 +538,8 @@ static rc::Gen<Case> gen_writer(int tier) {
         c.push_back(Op("run", {*range<int>(1, 3)}));
     }
     if (*range<int>(0, 9) == 0) c.push_back(Op("free"));
+    // what the application does inside the failure callback (nothing / write / reserve+consume); no failure callback at all
+    if (*range<int>(0, 2) == 0) c.push_back(Op("opt", {*range<int>(0, 2), *rc::gen::elementOf(std::vector<int64_t>{0, 1, 10, 5000}), *range<int>(0, 5) == 0 ? 1 : 0}));
     int nitems = *range<int>(0, 16);
     for (int i = 0; i < nitems; i++) {
       int t = *rc::gen::weightedElement<int>({{8, OUT_ACCEPT}, {3, OUT_EAGAIN}, {2, OUT_EINTR}, {2, OUT_BLOCK}});
